@@ -43,7 +43,47 @@ def check_leaf_id_noninterference():
     return (not bad), '; '.join(bad)
 
 
+def fns_mentioning(src, needle_regex, scope=''):
+    """names of the fn items (in file text src) whose body or signature mentions needle_regex (token-aware)"""
+    m = rustlex.mask(src)
+    names = []
+    for fm in re.finditer(r'\bfn\s+([A-Za-z_][A-Za-z0-9_]*)', m):
+        try:
+            a, b = rustlex.fn_item_span(src, fm.start())
+        except ValueError:
+            continue
+        if re.search(needle_regex, m[fm.start():b]):
+            names.append(fm.group(1))
+    return names
+
+
+def check_dest_frame():
+    """self.dest is mentioned only by new / into_inner / get_mut / get_ref / private_flush (C10: bytes handed over
+    are only ever appended through write_all, never rewritten)"""
+    src = rd(os.path.join(REPO, 'src/tag_writer.rs'))
+    # strip the test module
+    cut = src.find('#[cfg(test)]')
+    body = src if cut < 0 else src[:cut]
+    names = set(fns_mentioning(body, r'self\s*\.\s*dest\b'))
+    allowed = {'into_inner', 'get_mut', 'get_ref', 'private_flush'}
+    extra = names - allowed
+    return (not extra), ('functions touching self.dest outside the frame: ' + ', '.join(sorted(extra))) if extra else ''
+
+
+def check_buffer_frame():
+    """only the buffer layer of TagIterator assigns to / mutably borrows buffer, buffered_byte_length, buffer_offset, source"""
+    src = rd(os.path.join(REPO, 'src/tag_iterator.rs'))
+    m = rustlex.mask(src)
+    allowed = {'with_capacity', 'private_read', 'ensure_capacity', 'ensure_data_read', 'into_inner', 'get_mut', 'get_ref'}
+    pat = r'(self\s*\.\s*(buffer|buffered_byte_length|buffer_offset)\s*([-+*]?=(?!=)|\.copy_within|\.fill|\.swap))|(&mut\s+self\s*\.\s*(buffer|source)\b)|(self\s*\.\s*source\s*\.)'
+    names = set(fns_mentioning(src, pat))
+    extra = names - allowed
+    return (not extra), ('functions writing the buffer state outside the buffer layer: ' + ', '.join(sorted(extra))) if extra else ''
+
+
 CHECKS = {
+    'S:writer_dest_frame': (check_dest_frame, ['C10'], 'frame: self.dest is only touched by into_inner / get_mut / get_ref / private_flush, and private_flush only appends through write_all'),
+    'S:iterator_buffer_frame': (check_buffer_frame, ['C03', 'C04', 'C17'], 'frame: only with_capacity / private_read / ensure_capacity / ensure_data_read write buffer, buffered_byte_length, buffer_offset or read from the source'),
     'S:leaf_id_noninterference': (check_leaf_id_noninterference, ['C16', 'C01', 'C09'],
                                   'element writers read `id` only in their first statement (id-byte emission); makes the value x id decomposition of the K harnesses sound'),
 }
